@@ -10,6 +10,7 @@ import (
 	"net"
 	"os"
 	"os/exec"
+	"sort"
 	"strconv"
 	"strings"
 	"sync"
@@ -26,6 +27,7 @@ type ChildInfo struct {
 	Plain string `json:"plain"`
 	TLS   string `json:"tls"`
 	MITM  string `json:"mitm"`
+	PP    string `json:"pp"` // listener that expects a PROXY protocol header
 	Pid   int    `json:"pid"`
 }
 
@@ -51,7 +53,8 @@ func HostileChild(memLimit int64, readHeaderTimeout time.Duration) {
 	plain := mk(Options{Namespace: "vfp"})
 	tl := mk(Options{Namespace: "vft", TLSListener: true})
 	mitm := mk(Options{Namespace: "vfm", MITM: true})
-	b, _ := json.Marshal(ChildInfo{Plain: plain.Addr, TLS: tl.Addr, MITM: mitm.Addr, Pid: os.Getpid()})
+	pp := mk(Options{Namespace: "vfpp", ProxyProtocol: 500 * time.Millisecond})
+	b, _ := json.Marshal(ChildInfo{Plain: plain.Addr, TLS: tl.Addr, MITM: mitm.Addr, PP: pp.Addr, Pid: os.Getpid()})
 	fmt.Println(string(b))
 	io.Copy(io.Discard, os.Stdin)
 	os.Exit(0)
@@ -246,6 +249,39 @@ func hostileStreams(tier string, seed uint64, originAddr string) []stream {
 	ss = append(ss, stream{name: "tls-inner-garbage", listener: "tls", viaTLS: true, end: "fin", chunks: [][]byte{[]byte("\xff\xfe\x00garbage\r\n\r\n")}})
 	ss = append(ss, stream{name: "tls-inner-long-line", listener: "tls", viaTLS: true, end: "fin", chunks: [][]byte{[]byte("GET /"), rep("a", 1<<20)}})
 
+	// listener that expects the PROXY protocol (v1 text / v2 binary header before the request)
+	v2sig := "\r\n\r\n\x00\r\nQUIT\n"
+	ppStreams := map[string][]byte{
+		"pp-no-header":               []byte(valid),
+		"pp-v1-unknown":              []byte("PROXY UNKNOWN\r\n" + valid),
+		"pp-v1-garbage-family":       []byte("PROXY TCP9 1.2.3.4 5.6.7.8 1 2\r\n" + valid),
+		"pp-v1-bad-ports":            []byte("PROXY TCP4 1.2.3.4 5.6.7.8 -1 70000\r\n" + valid),
+		"pp-v1-bad-addr":             []byte("PROXY TCP4 999.2.3.4 x 1 2\r\n" + valid),
+		"pp-v1-too-long":             append([]byte("PROXY TCP6 "), append(rep("f", 300), []byte("\r\n"+valid)...)...),
+		"pp-v1-no-crlf":              append([]byte("PROXY TCP4 1.2.3.4 5.6.7.8 1 2"), rep(" ", 4000)...),
+		"pp-v1-tcp6-minimal":         []byte("PROXY TCP6 :: ::1 2 3\r\n" + valid),
+		"pp-v2-local":                []byte(v2sig + "\x20\x00\x00\x00" + valid),
+		"pp-v2-family-unspec":        []byte(v2sig + "\x21\x00\x00\x00" + valid),
+		"pp-v2-unknown-family":       []byte(v2sig + "\x21\x41\x00\x00" + valid),
+		"pp-v2-unknown-command":      []byte(v2sig + "\x2f\x11\x00\x0c\x01\x02\x03\x04\x05\x06\x07\x08\x00\x01\x00\x02" + valid),
+		"pp-v2-bad-version":          []byte(v2sig + "\x11\x11\x00\x0c\x01\x02\x03\x04\x05\x06\x07\x08\x00\x01\x00\x02" + valid),
+		"pp-v2-short-length":         []byte(v2sig + "\x21\x11\x00\x04\x01\x02\x03\x04" + valid),
+		"pp-v2-huge-length":          []byte(v2sig + "\x21\x11\xff\xff\x01\x02\x03\x04"),
+		"pp-v2-truncated":            []byte(v2sig + "\x21\x11\x00\x0c\x01\x02"),
+		"pp-v2-unix-family":          append([]byte(v2sig+"\x21\x31\x00\xd8"), append(rep("u", 216), []byte(valid)...)...),
+		"pp-v2-tcp4-ok-then-garbage": []byte(v2sig + "\x21\x11\x00\x0c\x01\x02\x03\x04\x05\x06\x07\x08\x00\x01\x00\x02" + "\x00\xffgarbage\r\n\r\n"),
+		"pp-signature-only":          []byte(v2sig),
+		"pp-binary-garbage":          rep("\xfe", 500),
+	}
+	var ppNames []string
+	for n := range ppStreams {
+		ppNames = append(ppNames, n)
+	}
+	sort.Strings(ppNames)
+	for _, n := range ppNames {
+		add(n, "pp", "fin", ppStreams[n])
+	}
+
 	// MITM: certificates are minted for whatever host the CONNECT names
 	for i, h := range []string{"exa\xffmple.invalid:443", strings.Repeat("a", 300) + ".invalid:443", "a..b.invalid:443", "[::1]:443", ":443",
 		"*.example.invalid:443", "xn--80ak6aa92e.invalid:443", "UPPER.Invalid:443", "127.0.0.1:443", "a_b.invalid:443", "-dash.invalid:443",
@@ -394,6 +430,8 @@ func RunHostile(self, tier string, seed uint64, only string) []HostileResult {
 			return ch.info.TLS
 		case "mitm":
 			return ch.info.MITM
+		case "pp":
+			return ch.info.PP
 		}
 		return ch.info.Plain
 	}
@@ -412,7 +450,11 @@ func RunHostile(self, tier string, seed uint64, only string) []HostileResult {
 			}
 			rw = tc
 		}
-		rw.Write([]byte("GET http://" + origin.Addr + "/probe HTTP/1.1\r\nHost: " + origin.Addr + "\r\nConnection: close\r\n\r\n"))
+		pre := ""
+		if l == "pp" {
+			pre = "PROXY TCP4 192.0.2.1 192.0.2.2 1234 80\r\n"
+		}
+		rw.Write([]byte(pre + "GET http://" + origin.Addr + "/probe HTTP/1.1\r\nHost: " + origin.Addr + "\r\nConnection: close\r\n\r\n"))
 		co := ReadResponse(rw, false, 5*time.Second)
 		ok := co.P.Verdict == VComplete && co.P.Status == 200 && string(co.P.Body) == "probe-ok"
 		txt := ""
